@@ -5,10 +5,10 @@ Invariants of the I2C initiator's bit loop (C52), for every input history:
 before the acknowledge clock), SDA is released during the acknowledge clock of a write (so the
 target can answer) and during the data clocks of a read (so the target can drive data).
 
-Not proved here (left PARTIAL, see Props/C52.lean): with the ghost `d` = octet latched from
-`data_i`, `WRITE-DATA-SCL-H` and `WRITE-DATA-SDA-N` carry `sda_o = bit (7 - bitno) of d` (needs
-`w_shreg = d * 2^bitno % 256` through the four-state loop; the one-step ingredients are
-`bit_lemma` / `shift_lemma` below and `write_msb_first_and_ack_partial`).
+Second part: with the ghost `d` = octet latched from `data_i` when the write was accepted,
+`WRITE-DATA-SCL-H` and `WRITE-DATA-SDA-N` (the SCL-high phases of data clock number `bitno`) carry
+`sda_o = bit (7 - bitno) of d` (`write_msb_first_and_ack`), via `w_shreg = d * 2^bitno % 256`
+through the four-state loop; and the read-acknowledge clock carries `~r_ack`.
 -/
 namespace LunaVerif.I2c
 
@@ -71,5 +71,177 @@ theorem sda_released_for_target_bits (c : Config) (h : List In) : LoopInv (state
   induction h with
   | nil => intro s hs; exact hs
   | cons i is ih => intro s hs; exact ih _ (loopInv_step c s i hs)
+
+/-! ## the octet on the wire -/
+
+/-- ghost: the octet latched by the last accepted write -/
+def gstep (s : State) (d : Nat) (i : In) : Nat :=
+  if s.fsm = .idle ∧ i.start = false ∧ i.stop = false ∧ i.write = true then i.dataI % 256 else d
+
+def afterG (c : Config) : State × Nat → List In → State × Nat
+  | sd, [] => sd
+  | (s, d), i :: is => afterG c (step c s i, gstep s d i) is
+
+theorem gstep_nonidle (s : State) (d : Nat) (i : In) (h : s.fsm ≠ .idle) : gstep s d i = d := by
+  simp [gstep, h]
+
+structure WInv (s : State) (d : Nat) : Prop where
+  loop : LoopInv s
+  w1   : (s.fsm = .wrDataSclL ∨ s.fsm = .wrDataSdaX) → s.wShreg = d * 2 ^ s.bitno % 256
+  w2   : s.fsm = .wrDataSclH → s.wShreg = d * 2 ^ s.bitno % 256 ∧ s.sdaO = bitOf d (7 - s.bitno)
+  w3   : s.fsm = .wrDataSdaN → s.wShreg = d * 2 ^ (s.bitno + 1) % 256 ∧ s.sdaO = bitOf d (7 - s.bitno)
+  r2   : (s.fsm = .rdAckSclH ∨ s.fsm = .rdAckSdaN) → s.sdaO = !s.rAck
+
+theorem pred_wrDataSclL (c : Config) (s : State) (i : In) (h : (step c s i).fsm = .wrDataSclL) :
+    (s.fsm = .idle ∧ i.start = false ∧ i.stop = false ∧ i.write = true) ∨ s.fsm = .wrDataSdaN ∨
+      s.fsm = .wrDataSclL := by
+  cases hf : s.fsm <;> simp only [step, hf, sclL, sclH, stbX, id] at h <;> (repeat' split at h) <;> simp_all
+
+theorem pred_wrDataSdaX (c : Config) (s : State) (i : In) (h : (step c s i).fsm = .wrDataSdaX) :
+    s.fsm = .wrDataSclL ∨ s.fsm = .wrDataSdaX := by
+  cases hf : s.fsm <;> simp only [step, hf, sclL, sclH, stbX, id] at h <;> (repeat' split at h) <;> simp_all
+
+theorem pred_wrDataSclH (c : Config) (s : State) (i : In) (h : (step c s i).fsm = .wrDataSclH) :
+    s.fsm = .wrDataSdaX ∨ s.fsm = .wrDataSclH := by
+  cases hf : s.fsm <;> simp only [step, hf, sclL, sclH, stbX, id] at h <;> (repeat' split at h) <;> simp_all
+
+theorem pred_wrDataSdaN (c : Config) (s : State) (i : In) (h : (step c s i).fsm = .wrDataSdaN) :
+    s.fsm = .wrDataSclH ∨ s.fsm = .wrDataSdaN := by
+  cases hf : s.fsm <;> simp only [step, hf, sclL, sclH, stbX, id] at h <;> (repeat' split at h) <;> simp_all
+
+theorem pred_rdAck (c : Config) (s : State) (i : In)
+    (h : (step c s i).fsm = .rdAckSclH ∨ (step c s i).fsm = .rdAckSdaN) :
+    s.fsm = .rdAckSdaX ∨ s.fsm = .rdAckSclH ∨ s.fsm = .rdAckSdaN := by
+  cases hf : s.fsm <;> simp only [step, hf, sclL, sclH, stbX, id] at h <;> (repeat' split at h) <;> simp_all
+
+theorem g_w1a (c : Config) (s : State) (d : Nat) (i : In) (h : WInv s d)
+    (hn : (step c s i).fsm = .wrDataSclL) :
+    (step c s i).wShreg = gstep s d i * 2 ^ (step c s i).bitno % 256 := by
+  rcases pred_wrDataSclL c s i hn with ⟨hf, h1, h2, h3⟩ | hf | hf
+  · have hb0 : s.bitno = 0 := h.loop.bit0 (by simp [hf, inBitLoop])
+    simp [step, gstep, hf, h1, h2, h3, hb0]
+  · have ⟨h3a, _⟩ := h.w3 hf
+    have hlt := h.loop.bitLt
+    rw [gstep_nonidle s d i (by simp [hf])]
+    simp only [step, hf, stbX] at hn ⊢
+    split at hn
+    · rename_i hst
+      simp only [hst, if_true] at hn ⊢
+      by_cases h7 : s.bitno = 7
+      · simp [h7] at hn
+      · have : (s.bitno + 1) % 8 = s.bitno + 1 := by omega
+        simp [this, h3a]
+    · simp at hn
+  · have h1 := h.w1 (Or.inl hf)
+    rw [gstep_nonidle s d i (by simp [hf])]
+    simp only [step, hf, sclL] at hn ⊢
+    split <;> simp_all
+
+theorem g_w1b (c : Config) (s : State) (d : Nat) (i : In) (h : WInv s d)
+    (hn : (step c s i).fsm = .wrDataSdaX) :
+    (step c s i).wShreg = gstep s d i * 2 ^ (step c s i).bitno % 256 := by
+  rcases pred_wrDataSdaX c s i hn with hf | hf
+  · have h1 := h.w1 (Or.inl hf)
+    rw [gstep_nonidle s d i (by simp [hf])]
+    simp only [step, hf, sclL] at hn ⊢
+    split <;> simp_all
+  · have h1 := h.w1 (Or.inr hf)
+    rw [gstep_nonidle s d i (by simp [hf])]
+    simp only [step, hf, stbX] at hn ⊢
+    split <;> simp_all
+
+theorem g_w2 (c : Config) (s : State) (d : Nat) (i : In) (h : WInv s d)
+    (hn : (step c s i).fsm = .wrDataSclH) :
+    (step c s i).wShreg = gstep s d i * 2 ^ (step c s i).bitno % 256 ∧
+    (step c s i).sdaO = bitOf (gstep s d i) (7 - (step c s i).bitno) := by
+  have hb := bit_lemma d s.bitno h.loop.bitLt
+  rcases pred_wrDataSclH c s i hn with hf | hf
+  · have h1 := h.w1 (Or.inr hf)
+    rw [gstep_nonidle s d i (by simp [hf])]
+    simp only [step, hf, stbX] at hn ⊢
+    split at hn
+    · rename_i hst
+      simp only [hst, if_true]
+      exact ⟨h1, by rw [h1]; exact hb⟩
+    · simp at hn
+  · have ⟨h2a, h2b⟩ := h.w2 hf
+    rw [gstep_nonidle s d i (by simp [hf])]
+    simp only [step, hf, sclH] at hn ⊢
+    (repeat' split) <;> simp_all
+
+theorem g_w3 (c : Config) (s : State) (d : Nat) (i : In) (h : WInv s d)
+    (hn : (step c s i).fsm = .wrDataSdaN) :
+    (step c s i).wShreg = gstep s d i * 2 ^ ((step c s i).bitno + 1) % 256 ∧
+    (step c s i).sdaO = bitOf (gstep s d i) (7 - (step c s i).bitno) := by
+  rcases pred_wrDataSdaN c s i hn with hf | hf
+  · have ⟨h2a, h2b⟩ := h.w2 hf
+    have hs : s.wShreg * 2 % 256 = d * 2 ^ (s.bitno + 1) % 256 := by rw [h2a]; exact shift_lemma d s.bitno
+    rw [gstep_nonidle s d i (by simp [hf])]
+    simp only [step, hf, sclH] at hn ⊢
+    (repeat' split) <;> simp_all
+  · have ⟨h3a, h3b⟩ := h.w3 hf
+    rw [gstep_nonidle s d i (by simp [hf])]
+    simp only [step, hf, stbX] at hn ⊢
+    split at hn
+    · rename_i hst
+      simp only [hst, if_true] at hn
+      split at hn <;> simp at hn
+    · rename_i hst
+      simp [hst, h3a, h3b]
+
+theorem g_r2 (c : Config) (s : State) (d : Nat) (i : In) (h : WInv s d)
+    (hn : (step c s i).fsm = .rdAckSclH ∨ (step c s i).fsm = .rdAckSdaN) :
+    (step c s i).sdaO = !(step c s i).rAck := by
+  rcases pred_rdAck c s i hn with hf | hf | hf
+  · simp only [step, hf, stbX] at hn ⊢
+    split <;> simp_all
+  · have h2 := h.r2 (Or.inl hf)
+    simp only [step, hf, sclH] at hn ⊢
+    (repeat' split) <;> simp_all
+  · have h2 := h.r2 (Or.inr hf)
+    simp only [step, hf, stbX] at hn ⊢
+    split <;> simp_all
+
+theorem winv_step (c : Config) (s : State) (d : Nat) (i : In) (h : WInv s d) :
+    WInv (step c s i) (gstep s d i) :=
+  ⟨loopInv_step c s i h.loop,
+   fun hn => hn.elim (g_w1a c s d i h) (g_w1b c s d i h),
+   g_w2 c s d i h, g_w3 c s d i h, g_r2 c s d i h⟩
+
+theorem winv_init : WInv init 0 := by
+  refine ⟨loopInv_init, ?_, ?_, ?_, ?_⟩ <;> simp [init]
+
+theorem winv_reachable (c : Config) (h : List In) :
+    WInv (afterG c (init, 0) h).1 (afterG c (init, 0) h).2 := by
+  suffices ∀ sd : State × Nat, WInv sd.1 sd.2 → WInv (afterG c sd h).1 (afterG c sd h).2 from
+    this _ winv_init
+  induction h with
+  | nil => intro sd hs; exact hs
+  | cons i is ih => intro (s, d) hs; exact ih _ (winv_step c s d i hs)
+
+/-- **Write, byte level.**  After ANY input history (any target behaviour, stretching, strobes),
+with `d` the octet latched from `data_i` by the last accepted write: whenever the FSM is in the
+SCL-high phase of data clock number `bitno` (0…7) the initiator's SDA output is bit `7 - bitno`
+of `d` (most significant bit first); during the acknowledge clock SDA is released; and the
+acknowledge clock of a read carries the complement of the latched `ack_i`.  (That SDA does not
+move during these phases is `sda_changes_under_scl_high_only_for_start_stop`; that `ack_o` is the
+complement of SDA sampled with SCL high is `write_msb_first_and_ack_partial`.) -/
+theorem write_msb_first_and_ack (c : Config) (h : List In) :
+    let s := (afterG c (init, 0) h).1
+    let d := (afterG c (init, 0) h).2
+    ((s.fsm = .wrDataSclH ∨ s.fsm = .wrDataSdaN) → s.bitno < 8 ∧ s.sdaO = bitOf d (7 - s.bitno)) ∧
+    ((s.fsm = .wrAckSclH ∨ s.fsm = .wrAckSdaN) → s.sdaO = true) ∧
+    ((s.fsm = .rdAckSclH ∨ s.fsm = .rdAckSdaN) → s.sdaO = !s.rAck) := by
+  intro s d
+  have w := winv_reachable c h
+  refine ⟨?_, w.loop.w4, w.r2⟩
+  intro hs
+  exact ⟨w.loop.bitLt, hs.elim (fun h2 => (w.w2 h2).2) (fun h3 => (w.w3 h3).2)⟩
+
+/-- the model state of `afterG` is the plain run -/
+theorem afterG_state (c : Config) (h : List In) : ∀ sd : State × Nat, (afterG c sd h).1 = stateAfter c sd.1 h := by
+  induction h with
+  | nil => intro sd; rfl
+  | cons i is ih => intro (s, d); exact ih _
 
 end LunaVerif.I2c
